@@ -63,6 +63,7 @@ def evJ : Ev → Json
   | .idle t d => Json.mkObj [("ev", .str "idle"), ("time", int t), ("done", .bool d)]
   | .att a => attJ a
   | .restarted t => Json.mkObj [("ev", .str "restarted"), ("time", int t)]
+  | .skipped t => Json.mkObj [("ev", .str "skipped"), ("time", int t)]
 
 def stepOf? (j : Json) : Option Step := do
   match ← jArr? j with
@@ -83,6 +84,7 @@ def stepOf? (j : Json) : Option Step := do
 inductive AbsStep where
   | cycleAt (t : Int) (wait : Nat) (x : Raised) (dur lag : Nat) (view : Nat) (stored : Bool)
   | restartAt (t : Int)
+  | skippedAt (t : Int) (view : Nat) (stored : Bool)
 
 def absStepOf? (j : Json) : Option AbsStep := do
   match ← jArr? j with
@@ -91,6 +93,9 @@ def absStepOf? (j : Json) : Option AbsStep := do
       let view ← jNat? view; let stored ← jBool? stored
       some (.cycleAt t wait x dur lag view stored)
   | [.str "restart_at", t] => do let t ← jInt? t; some (.restartAt t)
+  | [.str "skipped_at", t, view, stored] => do
+      let t ← jInt? t; let view ← jNat? view; let stored ← jBool? stored
+      some (.skippedAt t view stored)
   | _ => none
 
 def runAbs (env : Env) (l : Limits) : Int → List Rec → List AbsStep → Option (List Ev)
@@ -100,6 +105,10 @@ def runAbs (env : Env) (l : Limits) : Int → List Rec → List AbsStep → Opti
         let evs := runEnv env l now hist [.restart (t - now).toNat]
         let tl ← runAbs env l t hist rest
         some (evs ++ tl)
+  | now, hist, .skippedAt t view stored :: rest =>
+      if t < now then none else do
+        let tl ← runAbs env l t (if stored && (hist[view]?).isNone then fromScratch t :: hist else hist) rest
+        some (.skipped t :: tl)
   | now, hist, .cycleAt t wait x dur lag view stored :: rest =>
       if t < now then none else
         match runEnv env l now hist [.cycle view stored (t - now).toNat wait x dur lag] with
@@ -158,13 +167,23 @@ def handle : DrvHandler := fun op args =>
       let env ← envOf? env; let lim ← limitsOf? lim; let now ← jInt? now
       let script ← scriptOf? script
       some (ok (.arr ((loopRun env lim now (fromScratch now) script).map attJ).toArray))
-  | "C11.timer", [env, lim, interval, sharp, now, script] => do
-      -- the whole life of a timer (interval > 0, no idle) from scratch at `now`
-      let env ← envOf? env; let lim ← limitsOf? lim; let now ← jInt? now
+  | "C11.timer", [env, lim, interval, sharp, idleUntil, now, script] => do
+      -- the whole life of one `_timer` task (interval > 0) from scratch at `now`; the idle wait ends at `idleUntil`
+      let env ← envOf? env; let lim ← limitsOf? lim; let now ← jInt? now; let iu ← jInt? idleUntil
       let interval ← jNat? interval; let sharp ← jBool? sharp
       let script ← scriptOf? script
       if interval == 0 then some (err "zero-interval") else
-      some (ok (.arr ((timerRun env lim interval sharp now (fromScratch now) script).map evJ).toArray))
+      some (ok (.arr ((timerRun env lim interval sharp iu now (fromScratch now) script).map evJ).toArray))
+  | "C11.respawn", [env, lim, interval, sharp, tasks] => do
+      -- a timer across re-spawns: tasks = [[spawn time, script], …]
+      let env ← envOf? env; let lim ← limitsOf? lim
+      let interval ← jNat? interval; let sharp ← jBool? sharp
+      let tasks ← (← jArr? tasks).mapM (fun t => do
+        match ← jArr? t with
+        | [t0, sc] => do let t0 ← jInt? t0; let sc ← scriptOf? sc; some (t0, sc)
+        | _ => none)
+      if interval == 0 then some (err "zero-interval") else
+      some (ok (.arr ((respawnRun env lim interval sharp tasks).map evJ).toArray))
   | "C11.children", [subs, now] => do
       -- what kopf.execute() raises in the parent, given the sub-handlers' records after their batch
       let subs ← (← jArr? subs).mapM recOf?
